@@ -614,6 +614,117 @@ def caller_scenarios():
         probe.close()
         return do, [(f"objects/pack/{idx}.lock", f"objects/pack/{idx}")]
     S["object_store.py:DiskObjectStore.add_pack[index]"] = add_pack_idx
+
+    # ---- core.sharedRepository: the lock file's mode is adjusted (stat + chmod) before the rename
+    def gitfile_shared(root):
+        from dulwich.file import GitFile, SharedPerm
+        p = os.path.join(root, "shared.txt")
+        with open(p, "wb") as f:
+            f.write(b"old shared content\n")
+
+        def do():
+            with GitFile(p, "wb", shared_perm=SharedPerm(0o660)) as f:
+                f.write(b"new shared content, written through the lock\n" * 3)
+        return do, [("shared.txt.lock", "shared.txt")]
+    S["file.py:GitFile[shared_perm]"] = gitfile_shared
+
+    def _shared_repo(root):
+        from dulwich.repo import Repo
+        r = Repo.init(root)
+        c = r.get_config()
+        c.set((b"core",), b"sharedRepository", b"group")
+        c.write_to_path()
+        r.close()
+        return Repo(root)
+
+    def index_write_shared(root):
+        from dulwich.index import IndexEntry
+        r = _shared_repo(root)
+        idx = r.open_index()
+        idx[b"old"] = IndexEntry((1, 0), (1, 0), 1, 1, 0o100644, 0, 0, 3, A, 0, 0)
+        idx.write()
+        idx2 = r.open_index()
+        idx2[b"new"] = IndexEntry((1, 0), (1, 0), 1, 1, 0o100644, 0, 0, 3, B, 0, 0)
+        return idx2.write, [(".git/index.lock", ".git/index")]
+    S["index.py:Index.write[sharedRepository]"] = index_write_shared
+
+    def alternates_shared(root):
+        r = _shared_repo(root)
+        os.makedirs(os.path.join(root, "alt1"), exist_ok=True)
+        os.makedirs(os.path.join(root, "alt2"), exist_ok=True)
+        r.object_store.add_alternate_path(os.path.join(root, "alt1"))
+        return (lambda: r.object_store.add_alternate_path(os.path.join(root, "alt2"))), \
+            [(".git/objects/info/alternates.lock", ".git/objects/info/alternates")]
+    S["object_store.py:add_alternate_path[sharedRepository]"] = alternates_shared
+
+    def loose_shared(root):
+        r = _shared_repo(root)
+        b = Blob.from_string(b"shared loose object\n" * 12)
+        hx = b.id.decode()
+        return (lambda: r.object_store.add_object(b)), [(f".git/objects/{hx[:2]}/{hx[2:]}.lock", f".git/objects/{hx[:2]}/{hx[2:]}")]
+    S["object_store.py:add_object[sharedRepository]"] = loose_shared
+    return S
+
+
+def refused_scenarios():
+    """Operations that are REFUSED for a reason that is not an I/O error (a conflicting name, a condition that does
+    not hold): name -> setup(root) returning (fn, [(lockrel, targetrel)]).  They must leave the file as it was and
+    no lock behind at the moment the refusal reaches the caller."""
+    A, B = b"a" * 40, b"b" * 40
+    S = {}
+
+    def mk(root):
+        from dulwich.refs import DiskRefsContainer
+        os.makedirs(os.path.join(root, "refs", "heads"), exist_ok=True)
+        c = DiskRefsContainer(root)
+        c[b"refs/heads/a"] = A
+        c[b"refs/heads/d/e"] = A
+        c.set_symbolic_ref(b"HEAD", b"refs/heads/a")
+        c.pack_refs(all=True)                 # refs/heads/a and refs/heads/d/e live in packed-refs only
+        return DiskRefsContainer(root)
+
+    def symref_dir_conflict(root):
+        c = mk(root)
+        return (lambda: c.set_symbolic_ref(b"refs/heads/a/b", b"refs/heads/d/e")), [("refs/heads/a/b.lock", "refs/heads/a/b")]
+    S["refs.py:set_symbolic_ref[name below a packed ref]"] = symref_dir_conflict
+
+    def symref_file_conflict(root):
+        c = mk(root)
+        return (lambda: c.set_symbolic_ref(b"refs/heads/d", b"refs/heads/a")), [("refs/heads/d.lock", "refs/heads/d")]
+    S["refs.py:set_symbolic_ref[name is a packed directory]"] = symref_file_conflict
+
+    def set_dir_conflict(root):
+        c = mk(root)
+        return (lambda: c.set_if_equals(b"refs/heads/a/b", None, B)), [("refs/heads/a/b.lock", "refs/heads/a/b")]
+    S["refs.py:set_if_equals[name below a packed ref]"] = set_dir_conflict
+
+    def add_dir_conflict(root):
+        c = mk(root)
+        return (lambda: c.add_if_new(b"refs/heads/d", B)), [("refs/heads/d.lock", "refs/heads/d")]
+    S["refs.py:add_if_new[name is a packed directory]"] = add_dir_conflict
+
+    def cas_mismatch(root):
+        c = mk(root)
+        c[b"refs/heads/x"] = A
+        return (lambda: c.set_if_equals(b"refs/heads/x", B, B)), [("refs/heads/x.lock", "refs/heads/x")]
+    S["refs.py:set_if_equals[old value does not match]"] = cas_mismatch
+
+    def add_existing(root):
+        c = mk(root)
+        return (lambda: c.add_if_new(b"refs/heads/a", B)), [("refs/heads/a.lock", "refs/heads/a")]
+    S["refs.py:add_if_new[exists packed]"] = add_existing
+
+    def rm_mismatch(root):
+        c = mk(root)
+        return (lambda: c.remove_if_equals(b"refs/heads/a", B)), [("refs/heads/a.lock", "refs/heads/a"), ("packed-refs.lock", "packed-refs")]
+    S["refs.py:remove_if_equals[old value does not match]"] = rm_mismatch
+
+    def bad_value(root):
+        c = mk(root)
+        c[b"refs/heads/x"] = A
+        return (lambda: c.set_if_equals(b"refs/heads/x", A, b"not-a-sha")), [("refs/heads/x.lock", "refs/heads/x")]
+    S["refs.py:set_if_equals[invalid new value]"] = bad_value
+
     return S
 
 
@@ -633,6 +744,8 @@ class CallerRun:
                 return f.read()
         except (FileNotFoundError, NotADirectoryError):
             return None
+        except IsADirectoryError:
+            return b"\0directory\0"
 
     def observe(self, world, ev):
         ev["snap"] = {p: self.read(p) for pair in self.pairs for p in pair}
@@ -741,6 +854,33 @@ def mode_caller_faults(ctx, tid0):
                 ctx.count()
         ctx.log(f"caller {name}: {ncalls} fault points, {nrun} runs")
     ctx.sample({"kind": "caller-fault", "meta": meta[tid], "trace": traces[-1]})
+    return traces, meta, tid
+
+
+def mode_refused(ctx, tid0):
+    """fault-free runs of operations that are refused: judged like any failed operation (FailedKeepsOld, ReleasedAtExit at
+    the moment the refusal reaches the caller, before any finalizer has run)"""
+    traces, meta = [], {}
+    tid = tid0
+    for name, setup in refused_scenarios().items():
+        run = CallerRun(ctx, name, setup)
+        run.run()
+        res = run.sched.results[0]
+        refused = bool(res.exc) or res.value is False
+        if not refused:
+            raise MachineryError(f"scenario {name} was expected to be refused, but returned {res.value!r}")
+        for pair in run.pairs:
+            tid += 1
+            t = run.trace(tid, pair, b"\0never written\0", [0])
+            # an operation that returns False without an exception is 'aborted' in the trace vocabulary
+            traces.append(t)
+            meta[tid] = {"site": name, "scenario": f"refused ({res.exc or 'returned False'}) pair={pair[1]}", "strict": False}
+            ctx.nontrivial(("refused", name, pair[1]))
+            if run.after[pair[1]] != run.before[pair[1]]:
+                ctx.violation(f"{name}|FailedKeepsOld|refused operation changed the file pair={pair[1]}",
+                              f"{name}: refused, yet {pair[1]} changed", {"site": name})
+        ctx.count()
+    ctx.log(f"refused operations: {len(refused_scenarios())} scenarios")
     return traces, meta, tid
 
 
@@ -1109,7 +1249,7 @@ def run(ctx):
             raise MachineryError(f"negative control {cfg} did not find {expect}")
     tid = 0
     alltr, allmeta = [], {}
-    for mode in (mode_graph_replay, mode_schedules, mode_direct_faults, mode_caller_faults):
+    for mode in (mode_graph_replay, mode_schedules, mode_direct_faults, mode_caller_faults, mode_refused):
         tr, meta, tid = mode(ctx, tid)
         alltr += tr
         allmeta.update(meta)
